@@ -76,6 +76,6 @@ Why ==
 PNext == k = 0 /\ Why[1] = "same" /\ k' = 1 /\ UNCHANGED pid
 PSpec == PInit /\ [][PNext]_pvars
 Report == IF k = 1 THEN PrintT(<<"ACC", pid>>)
-          ELSE IF Why[1] # "same" THEN PrintT(<<"AT", pid, 1, P.mode, "events-differ">>) /\ PrintT(<<"DIFF", pid, Why>>)
+          ELSE IF Why[1] # "same" THEN PrintT("AT|" \o ToString(pid) \o "|" \o ToString(1) \o "|" \o P.mode \o "|" \o "events-differ") /\ PrintT(<<"DIFF", pid, Why>>)
           ELSE TRUE
 =============================================================================
